@@ -7,6 +7,7 @@ import (
 	"go/ast"
 	"go/constant"
 	"go/token"
+	"go/types"
 	"strings"
 
 	"golang.org/x/tools/go/ssa"
@@ -454,6 +455,9 @@ func checkCalendarRoles(p *Program, r *Report, dim, leap *ssa.Function) {
 						if cur[i] != "" {
 							continue
 						}
+						if b, ok := prm.Type().Underlying().(*types.Basic); !ok || b.Info()&types.IsInteger == 0 {
+							continue
+						}
 						for _, ret := range returnsOf(fn) {
 							if dependsOn(ret.Results[0], func(x ssa.Value) bool { return x == ssa.Value(prm) }, map[ssa.Value]bool{}) {
 								set(i, "day")
@@ -486,6 +490,7 @@ func checkCalendarRoles(p *Program, r *Report, dim, leap *ssa.Function) {
 	key := m.RelPkg + "." + k.Name()
 	outRole := map[string]string{"date": "day", "day": "day", "month": "month", "year": "year"}
 	webs := map[string]map[ssa.Value]bool{}
+	fieldRole := map[types.Type]map[int]string{} // date kept in a struct: field → role, by the output the field is written to
 	base := len(m.Inputs) + len(m.States) + len(m.Params)
 	for _, c := range callsIn(k) {
 		nm := callName(c.Common())
@@ -505,6 +510,12 @@ func checkCalendarRoles(p *Program, r *Report, dim, leap *ssa.Function) {
 					continue
 				}
 				break
+			}
+			if T, k, ok := fieldOf(v); ok {
+				if fieldRole[T] == nil {
+					fieldRole[T] = map[int]string{}
+				}
+				fieldRole[T][k] = role
 			}
 			w := phiWeb(v)
 			if webs[role] == nil {
@@ -536,6 +547,57 @@ func checkCalendarRoles(p *Program, r *Report, dim, leap *ssa.Function) {
 		}
 	}
 	n := 0
+	// where the date lives in a struct, the helpers' own calls are judged by the field they pass
+	if len(fieldRole) > 0 {
+		for _, fn := range fns {
+			if fn.Blocks == nil {
+				continue
+			}
+			ordf := map[string]int{}
+			for _, c := range callsIn(fn) {
+				g := c.Common().StaticCallee()
+				gr := roles[g]
+				if gr == nil {
+					continue
+				}
+				ordf[g.Name()]++
+				for j, a := range c.Common().Args {
+					if j >= len(gr) || gr[j] == "" {
+						continue
+					}
+					v := a
+					// a counting loop's counter stands for its bound (for mi := 1; mi < c.month; mi++)
+					if phi, ok := origin1(v).(*ssa.Phi); ok {
+						for _, l := range findLoops(fn) {
+							if l.Header == phi.Block() && loopInduction(l) == phi {
+								if iff, ok := l.Header.Instrs[len(l.Header.Instrs)-1].(*ssa.If); ok {
+									if bo, ok := iff.Cond.(*ssa.BinOp); ok {
+										v = bo.Y
+									}
+								}
+							}
+						}
+					}
+					T, fk, ok := fieldOf(v)
+					if !ok || fieldRole[T] == nil {
+						continue
+					}
+					n++
+					okey := fmt.Sprintf("%s:%s#%d:%s", FuncKey(fn), g.Name(), ordf[g.Name()], gr[j])
+					if got := fieldRole[T][fk]; got == gr[j] {
+						r.OK("R19.3", fmt.Sprintf("%s: %s call %d receives the %s field in its %s position", FuncKey(fn), g.Name(), ordf[g.Name()], got, gr[j]))
+					} else {
+						if got == "" {
+							got = "a field that is none of day/month/year"
+						} else {
+							got = "the " + got
+						}
+						r.Fail("R19.3", okey, p.Pos(c.Pos()), fmt.Sprintf("%s is called with %s where the %s belongs: the calendar is evaluated for the wrong %s", g.Name(), got, gr[j], gr[j]))
+					}
+				}
+			}
+		}
+	}
 	ord := map[string]int{}
 	for _, c := range callsIn(k) {
 		g := c.Common().StaticCallee()
@@ -547,6 +609,9 @@ func checkCalendarRoles(p *Program, r *Report, dim, leap *ssa.Function) {
 		for j, a := range c.Common().Args {
 			if j >= len(gr) || gr[j] == "" {
 				continue
+			}
+			if T, _, ok := fieldOf(a); ok && fieldRole[T] != nil {
+				continue // judged above
 			}
 			n++
 			okey := fmt.Sprintf("%s:%s#%d:%s", key, g.Name(), ord[g.Name()], gr[j])
@@ -562,4 +627,28 @@ func checkCalendarRoles(p *Program, r *Report, dim, leap *ssa.Function) {
 		}
 	}
 	r.Floor("R19.3", "calendar arguments with a role", n, 4)
+}
+
+
+// fieldOf: v is (a conversion of) a read of field k of a struct of type T — a Field of a struct value, or a load
+// through a FieldAddr.
+func fieldOf(v ssa.Value) (types.Type, int, bool) {
+	for {
+		if cv, ok := v.(*ssa.Convert); ok {
+			v = cv.X
+			continue
+		}
+		break
+	}
+	switch x := v.(type) {
+	case *ssa.Field:
+		return x.X.Type(), x.Field, true
+	case *ssa.UnOp:
+		if fa, ok := x.X.(*ssa.FieldAddr); ok && x.Op == token.MUL {
+			if pt, ok := fa.X.Type().Underlying().(*types.Pointer); ok {
+				return pt.Elem(), fa.Field, true
+			}
+		}
+	}
+	return nil, 0, false
 }
